@@ -357,7 +357,7 @@ pub fn run_all(
                                                 failure: f,
                                             });
                                         }
-                                        found.len() < 4
+                                        found.len() < 24
                                     }
                                 }
                             }
@@ -395,7 +395,7 @@ pub fn run_all(
                         m.2.extend(found);
                         // keep going a little: other chunks may hold other signatures, but do not
                         // burn the whole budget once a violation is certain
-                        if m.2.len() >= 8 {
+                        if m.2.len() >= 48 {
                             stop.store(true, Ordering::SeqCst);
                         }
                     }
